@@ -77,6 +77,13 @@ DIRECTED = [
     "from t | select {a, b} | group {a, b} (take 1) | derive {n = count this} | filter n < 3 | select {a, b}",
     "from t | derive {c2 = case [a > 1 => 1, true => 0]} | sort {c2, id} | take 3 | group {c2} (aggregate {n = count id})",
     "from t | filter a > 0 | derive {x = b + 1} | filter x > 1 | derive {y = x * 2} | filter y > 2 | aggregate {m = max y} | filter m > 3",
+    # a stop at an Aggregate (on dialects with DISTINCT ON its Sort asks for the aggregate's column at Plain complexity)
+    "from t | group {a} (aggregate {s = sum b}) | group {a} (sort {s} | take 1)",
+    "from t | group {a, g} (aggregate {s = sum b, n = count c}) | group {a} (sort {-s, n} | take 1) | filter s > 0",
+    "from t | select {a, b} | group {a} (aggregate {m = max b}) | group {m} (sort {a} | take 1)",
+    # a Sort in front of a set operation: its key is SELECTed into the top operand (C07-N12, the anchor's half)
+    "from t | sort b | select {a} | append (from u | select {a})",
+    "from t | sort {b, id} | take 3 | select {a} | append (from u | select {a})",
     "from t | window rolling:2 (derive {w = sum b}) | derive {x = case [w > 1 => a, true => b]} | filter x > 0 | group {g} (aggregate {n = count x})",
 ]
 
@@ -134,6 +141,11 @@ def splitoff_stream(ck, srcs, targets=("sql.sqlite", "sql.postgres")):
         sel = next((t["cids"] for t in d["atomic"] if t["kind"] == "Select"), None)
         if list(select) != sel:
             problems.append("Select of the atomic pipeline")
+        # with the hook patch hooks/split-off-back-setop-rel.diff the bottom operand of a set operation is logged: its width
+        # against the width of the Select the atomic pipeline gets (c01_setop_operand_width_refuted: C07-N12, the anchor's half)
+        for t in d["atomic"]:
+            if t["kind"] in ("Union", "Except", "Intersect") and isinstance(t.get("rel"), dict) and sel is not None:
+                ck.stat("splitoff", "setop-operand-width-%s" % ("equal" if len(t["rel"]["cols"]) == len(sel) else "DIFFERS"))
         if problems:
             ck.disagreement("split_off_back differs from Model/SplitOff.v (%s) on %s [%s]" % ("; ".join(problems), rq["src"].replace("\n", " | ")[:200], rq["target"]),
                             {"src": rq["src"], "target": rq["target"], "in": d["in"], "model": str(v)[:500],
